@@ -280,7 +280,10 @@ def run(eng: Engine, ck: Check):
         ok = False
         if t is not None:
             for h in t.handlers:
-                canc = [x for x in calls_in(h) if call_name(x) == 'cancel' and 'response_future' in unparse(x.func.value)]
+                canc = [x for x in calls_in(h) if call_name(x) == 'cancel' and
+                        ('response_future' in unparse(x.func.value) or any(mentions_name(leaf_, 'response_future') and all(
+                            not (mentions_name(e_, 'response') and not pol_) for e_, pol_ in conds_) for conds_, leaf_ in ifexp_cases(expand_aliases(ex, x.func.value, 1))
+                            if not is_none_const(leaf_)))]
                 rer = [n for n in walk_local(h) if isinstance(n, ast.Raise) and n.exc is None]
                 ok = bool(canc) and bool(rer)
         ck.ob('R-C12-SENDFAIL', ex, send[0], 'execute(): if sending fails the registered waiter is cancelled and the error re-raised', ok,
